@@ -61,6 +61,9 @@ claimed = {
  "C05": dict(cat="model_checking", tech="bounded exhaustive enumeration of message mutants (deviation bound 1 quick / 2 thorough from 22 seed messages, all truncations) x 3 connection states, each executed on the real code under the controlled scheduler (panic capture in every goroutine, deadlock detection), followed by probe reads",
              text="All single-field mutations (remove, null, empty, wrong kind, unknown value) of every JSON node of 22 valid seed messages of every kind, every byte prefix and garbage wrappings, delivered in three connection states on a fresh world; thorough adds all mutation pairs and every (mutant, seed) ordered pair; after each: no goroutine panicked, no deadlock, handling terminated, and a valid discovery read on the mutant's connection and on another peer's connection is answered.",
              ref="4 C05"),
+ "C01": dict(cat="model_checking", tech="bounded exhaustive enumeration of the classifier x function x ack x destination x peer matrix in two prior registry states on the real code under the controlled scheduler, reference response rules",
+             text="For every feature type the factory accepts (local server and client feature of each, all functions readable, list functions writable) and two prior states (no bindings; A bound and subscribed, B subscribed): every datagram of {read,reply,notify,write,call,result} x every registered function x ackRequest absent/true x destination {server, client, non-existent feature, non-existent entity} x peer {A,B}, plus the NodeManagement message set, is delivered and the complete outbound trace of all connections is judged: exactly the prescribed reply/result, on the sender's connection, referencing the request, addressed to its source, named after the addressed local feature; reply payload equals the current data.",
+             ref="4 C01"),
 }
 checks = []
 for pid, c in sorted(claimed.items()):
